@@ -114,6 +114,17 @@ func CheckFrame(b []byte) error {
 	if last.Tag != 10 {
 		return errors.New("wire: CheckSum not last")
 	}
+	for _, t := range []int{8, 9, 10} {
+		n := 0
+		for _, f := range m.Fields {
+			if f.Tag == t {
+				n++
+			}
+		}
+		if n != 1 {
+			return fmt.Errorf("wire: tag %d appears %d times", t, n)
+		}
+	}
 	// body length: bytes after the SOH ending field 9 up to and including the SOH before "10="
 	i8 := bytes.IndexByte(b, SOH)
 	i9 := i8 + 1 + bytes.IndexByte(b[i8+1:], SOH)
